@@ -25,7 +25,11 @@ RULE = ("decoder: streams = frames emitted by the real compressor (small windows
         "directive) over inputs around block/window edges incl. capacities compressBound(blockSize|offered)-1/0/+1, stable-in/"
         "out, pledged sizes, multi-frame, a single-call compression on the same context first, nbWorkers>=1 (direct oracle "
         "only); buffer-less compressBegin/Continue/End with contiguous and separated segments, ZBUFF_* round trips, "
-        "buffer-less decoding. A case counts as non-trivial when it has more than one call; its signature is the set of "
+        "buffer-less decoding; round 2: histories of 1-4 sessions over ONE reused DCtx (a dictionary / DDict / single-use prefix attached "
+        "between streams by every entry point, initDStream* / resetDStream / DCtx_reset after an abandoned stream, stable output buffer, "
+        "_simpleArgs, buffers with pos != 0, a single-call decompression in between, skippable frames, legacy v0.5-v0.7 frames; 15 segmentation "
+        "styles) with dctx->ddict / dctx->dictUses compared with DictUseModel.v at lock-step points, and decoder histories with a raw or "
+        "structured dictionary attached in lock-step with StreamInstDict.v (frames reaching the first and last dictionary byte). A case counts as non-trivial when it has more than one call; its signature is the set of "
         "(stage, return class, buffer-state predicates) it visited.")
 
 
